@@ -691,12 +691,26 @@ def world_rule3(pid):
                     6095: "with a liquidation record that is not the account's", 6096: "signed by someone else than the receiver the record names"},
             "C08": {6096: "signed by someone else than the receiver the record names", 6095: "with a liquidation record that is not the account's",
                     6099: "with a wallet that is not the fee state's"}}),
+        "wd.startdelev": ("forced-deleverage start", {
+            "C10": {6085: "of an account already in receivership / in a flash loan / disabled", 6086: "that is not the first instruction",
+                    6087: "next to another start", 6088: "without an end_deleverage as the last instruction",
+                    6089: "next to an instruction that is neither its start, its end, withdraw nor repay", 2001: "with a record / group / risk admin that is not the account's"},
+            "C08": {2001: "with a record / group / risk admin that is not the account's"},
+            "C12": {2001: "for a signer who is not the group's risk admin (or with a foreign record / group)"},
+            "C11": {6085: "of an account inside a flash loan"}}),
+        "wd.enddelev": ("forced-deleverage end", {
+            "C10": {6072: "leaving the account less healthy than the start found it", 6085: "of an account that is not in receivership",
+                    2001: "with a record / group / risk admin that is not the account's", 6042: "although the record names another receiver than the risk admin"},
+            "C08": {2001: "with a record / group / risk admin that is not the account's", 6042: "although the record names another receiver than the risk admin"},
+            "C12": {2001: "for a signer who is not the group's risk admin (or with a foreign record / group)", 6042: "although the record names another receiver than the risk admin"}}),
     }
     def f(op, impl, model):
         kind = op.split(" ", 1)[0]
         if kind not in T:
             return None
         name, table = T[kind]
+        if impl.startswith("ok accepted-for-someone-else-than-the-risk-admin") and pid in ("C10", "C08", "C12"):
+            return f"{pid} a {name} went through for someone else than the group's risk admin (signer / receiver named by the record): {op[:400]}"
         if impl.startswith("ok accepted-with-foreign-group") and pid in ("C06", "C08", "C19"):
             return f"{pid} the permissionless {name} went through on a bank that belongs to ANOTHER group than the one passed: the bank is run under foreign settings: {op[:400]}"
         if impl.startswith("ok accepted-with-foreign-record") and pid in ("C10", "C08"):
@@ -720,6 +734,8 @@ def world_rule3(pid):
                 return f"C06 the accrual crank leaves books that differ from an accrual to the current time: {op[:400]}"
             if kind == "wd.startliq" and pid == "C10":
                 return f"C10 the liquidation start records {impl.split()[1:]} where the exact evaluation gives {model.split()[1:]}: {op[:400]}"
+            if kind in ("wd.startdelev", "wd.enddelev") and pid in ("C10", "C12"):
+                return f"{pid} the {name} leaves flags / receiver / snapshot {impl.split()[1:]} where the exact evaluation gives {model.split()[1:]}: {op[:400]}"
             if kind == "wd.endliq" and pid == "C10":
                 return f"C10 the liquidation end leaves account flags {impl.split()[1:]} where the exact evaluation gives {model.split()[1:]}: {op[:400]}"
             if kind == "wd.startfl" and pid == "C11":
@@ -734,7 +750,7 @@ WITNESS = {
     "C04": [c04_health, emode_dupes("C04"), venue_v4("C04"), world_rule("C04")],
     "C13": [emode_dupes("C13"), emode_leverage("C13"), accepted_invalid_curve("C13")],
     "C18": [accepted_invalid_curve("C18")],
-    "C12": [accepted_invalid_curve("C12"), bracket_conditions("C12"), world_rule("C12")],
+    "C12": [accepted_invalid_curve("C12"), bracket_conditions("C12"), world_rule("C12"), world_rule3("C12")],
     "C05": [c05_health, c05_liq, value_scaling("C05"), c05_conditions, venue_v4("C05"), world_rule2("C05")],
     "C07": [c07_health, c07_soc, world_rule2("C07")],
     "C09": [c09_health, venue_v4("C09")],
